@@ -84,7 +84,7 @@ def run(ck):
     nplans = 400 if quick else 6000
     plans = plans[:nplans]
     cases = []
-    SCRIPTS = ["plain", "modules", "strindex", "fails", "fails2", "strinput", "stmod", "fmtlimit", "randmod", "moditer", "constreset", "modules"]
+    SCRIPTS = ["plain", "modules", "strindex", "fails", "fails2", "strinput", "stmod", "fmtlimit", "randmod", "moditer", "constreset", "stown", "modules"]
     for i, p in enumerate(plans):
         script = SCRIPTS[i % len(SCRIPTS)]
         cases.append({"id": i + 1, "plan": {str(g): ops for g, ops in p.items()}, "script": script, "reps": 3 if quick else 10})
